@@ -32,6 +32,16 @@ def resonance_denominator(k, eta):
     return (k[3] - k[0]) * eta[0] + (k[4] - k[1]) * eta[1] + (k[5] - k[2]) * eta[2]
 
 
+def finest_rate(e, floor):
+    """Asymptotic decay exponent from the finest pair of radii whose errors are both well above the rounding floor (coarser pairs
+    are pre-asymptotic when the generating function is large, e.g. small divisors in the full normal form)."""
+    rate = None
+    for i in range(len(e) - 1):
+        if e[i] > 1e3 * floor and e[i + 1] > 30 * floor and e[i] < 1e-2:
+            rate = float(np.log2(e[i] / e[i + 1]))
+    return rate
+
+
 def check_transform(ctx, label, N, eta, H_old, H_new, G, elim, fw, inv, kind, rng, n_dirs, exact_composition=True):
     """All C08 clauses for one transformed Hamiltonian.  Everything is given as {exponents: coeff} dictionaries."""
     cmax = max((abs(v) for k, v in H_new.items() if sum(k) >= 2), default=1.0)
@@ -79,7 +89,7 @@ def check_transform(ctx, label, N, eta, H_old, H_new, G, elim, fw, inv, kind, rn
     if fw is None:
         return
     e3, e4, e5 = [], [], []
-    radii = [0.2, 0.1, 0.05]
+    radii = [0.2, 0.1, 0.05, 0.025, 0.0125]
     for _ in range(n_dirs):
         d = rng.normal(size=6) + 1j * rng.normal(size=6)
         d /= np.linalg.norm(d)
@@ -102,23 +112,23 @@ def check_transform(ctx, label, N, eta, H_old, H_new, G, elim, fw, inv, kind, rn
     for name, e, expo, floor in (("3:H_new == H_old o Phi_fw up to O(|z|^(N+1))", e3, N + 1, 1e-13 * (1 + hs)),
                                  ("5:Phi_fw is canonical to the same order", e5, N, 1e-12)):
         ctx.note(f"errors[{label}:{kind}:{name[:1]}]", [float(v) for v in e])
-        if e[0] > 1e3 * floor and e[2] > 10 * floor:
-            rate = np.log2(e[0] / e[2]) / 2
+        rate = finest_rate(e, floor)
+        if rate is not None:
             ctx.stat(f"order_deficit[{name[:1]}:{kind}]", expo - rate)
             ctx.check(rate >= expo - 0.6, f"{name}[{kind}]", lambda: {**wit(), "errors": e.tolist(), "radii": radii, "rate": rate, "expected": expo})
             ctx.count(f"{name[:1]}:conclusive rate")
         else:
             # below the floor everywhere: the identity holds to rounding at these radii
-            ctx.check(e[0] <= 1e3 * floor * 10 or e[2] <= 10 * floor, f"{name}[{kind}]", lambda: {**wit(), "errors": e.tolist()})
+            ctx.check(e[0] <= 1e3 * floor * 10 or e[-1] <= 10 * floor, f"{name}[{kind}]", lambda: {**wit(), "errors": e.tolist()})
     if inv is not None:
         e4 = np.array(e4).max(axis=0)
-        if e4[0] > 1e-10 and e4[2] > 1e-13:
-            rate = np.log2(e4[0] / e4[2]) / 2
+        rate = finest_rate(e4, 1e-14)
+        if rate is not None:
             ctx.stat(f"order_deficit[4:{kind}]", (N + 1) - rate)
             ctx.check(rate >= N + 1 - 0.6, f"4:Phi_inv o Phi_fw == id up to O(|z|^(N+1))[{kind}]", lambda: {**wit(), "errors": e4.tolist(), "rate": rate})
             ctx.count("4:conclusive rate")
         else:
-            ctx.check(e4[2] <= 1e-12, f"4:Phi_inv o Phi_fw == id up to O(|z|^(N+1))[{kind}]", lambda: {**wit(), "errors": e4.tolist()})
+            ctx.check(e4[-1] <= 1e-12, f"4:Phi_inv o Phi_fw == id up to O(|z|^(N+1))[{kind}]", lambda: {**wit(), "errors": e4.tolist()})
     # (6) exact truncated composition
     if exact_composition and N <= 5:
         comp = rp.as_complex(rp.compose(rp.as_complex(H_old), [rp.as_complex(e) for e in fw], max_deg=N))
